@@ -444,3 +444,22 @@ B("publish identifier from a local counter", ["C17"], [(PS, "            request
 N("allocator modulus 65535 with +1", ["C17"], [(FAC, "            self.id = (self.id + 1) % 65536\n            self.id = self.id or 1   # avoid id 0\n", "            self.id = (self.id % 65535) + 1\n")])
 B("allocator does not look at the hold-back queue", ["C17"],
   [(FAC, "        for queue in self.queuePublishTx.values():\n            for request in queue:\n                if request.msgId == msgId:\n                    return True\n", "")], {"C17": ["ID-INUSE"]})
+
+# ---------------------------------------------------------------- C03
+B("consume [length + lenLen:]", ["C03"], [(BASE, "                self._buffer = self._buffer[length + lenLen + 1:]", "                self._buffer = self._buffer[length + lenLen:]")], {"C03": ["F2"]})
+B("dispatch [:length + lenLen]", ["C03"], [(BASE, "                chunk = self._buffer[:length + lenLen + 1]", "                chunk = self._buffer[:length + lenLen]")], {"C03": ["F2", "F3"]})
+B("complete test > instead of >=", ["C03"], [(BASE, "            if len(self._buffer) >= length + lenLen + 1:", "            if len(self._buffer) > length + lenLen + 1:")], {"C03": ["F2"]})
+B("length = None deleted", ["C03"], [(BASE, "                self._buffer = self._buffer[length + lenLen + 1:]\n                length = None\n", "                self._buffer = self._buffer[length + lenLen + 1:]\n")], {"C03": ["F6"]})
+B("framing loop runs once per chunk", ["C03"], [(BASE, "                self._buffer = self._buffer[length + lenLen + 1:]\n                length = None\n", "                self._buffer = self._buffer[length + lenLen + 1:]\n                length = None\n                break\n")], {"C03": ["F6"]})
+B("carry reset after dispatch", ["C03"], [(BASE, "                self._buffer = self._buffer[length + lenLen + 1:]", "                self._buffer = bytearray()")], {"C03": ["F2"]})
+B("width scan mask 0x40", ["C03"], [(BASE, "                    if not self._buffer[lenLen] & 0x80:\n                        break", "                    if not self._buffer[lenLen] & 0x40:\n                        break")], {"C03": ["F3"]})
+B("_processPacket(chunk[1:])", ["C03"], [(BASE, "                self._processPacket(chunk)", "                self._processPacket(chunk[1:])")], {"C03": ["F2", "F7"]})
+B("handler gets a truncated packet", ["C03"], [(BASE, "        if packetDecoder:\n            packetDecoder(packet)", "        if packetDecoder:\n            packetDecoder(packet[:-1])")], {"C03": ["F7"]})
+B("carry dropped when a packet is incomplete", ["C03"], [(BASE, "            else:\n                break\n\n # ----", "            else:\n                self._buffer = bytearray()\n                break\n\n # ----")], {"C03": ["F4"]})
+B("framer consults the keepalive state", ["C03"], [(BASE, "            if len(self._buffer) >= length + lenLen + 1:", "            if self._keepalive == 0 and len(self._buffer) >= length + lenLen + 1:")], {"C03": ["F1", "F2"]})
+B("length decoded from byte 0", ["C03"], [(BASE, "                length = decodeLength(self._buffer[1:])", "                length = decodeLength(self._buffer[0:])")], {"C03": ["F3"]})
+N("extent named once and reused", ["C03"],
+  [(BASE, "            if len(self._buffer) >= length + lenLen + 1:\n                chunk = self._buffer[:length + lenLen + 1]\n                self._processPacket(chunk)\n                self._buffer = self._buffer[length + lenLen + 1:]",
+    "            extent = length + lenLen + 1\n            if len(self._buffer) >= extent:\n                chunk = self._buffer[:extent]\n                self._processPacket(chunk)\n                self._buffer = self._buffer[extent:]")])
+N("dead return removed", ["C03"],
+  [(BASE, "                # We still haven't got all of the remaining length field\n                if lenLen < len(self._buffer) and self._buffer[lenLen] & 0x80:\n                    return\n", "")])
